@@ -185,6 +185,20 @@ def run(tier):
             validate(ck, L0, tp, evs, "real")
         if bi == 0:
             ck.sample(L0[:6])
+    # U: MemorySanitizer: a trainer that reads uninitialised memory returns a dictionary that depends on the heap's previous content
+    exem = core.build_exe("traindrv_msan", ["traindrv.c"], "msan")
+    L = ["SAMPLES text 120 100 1500 %d" % ck.rng.randint(1, 9999), "TRAIN default 16384 0 0 0 0 0 100 0 0 3", "TRAIN optfast 8192 0 0 %d 1 2 75 0 1 3" % ck.rng.choice([12, 14, 16]),
+         "TRAIN fastcover 8192 200 8 %d 1 0 100 0 0 3" % ck.rng.choice([12, 16]), "TRAIN cover 8192 200 8 0 0 0 100 0 0 3", "TRAIN optcover 4096 0 0 0 0 2 75 0 1 3", "TRAIN legacy 8192 9 0 0 0 0 100 0 0 3", "TRAIN finalize 8192 0 0 0 0 0 100 0 0 3"]
+    sp = os.path.join(od, "trm.script"); tp = os.path.join(od, "trm.ndjson")
+    open(sp, "w").write("\n".join(L) + "\n")
+    rc, out = core.sh([exem, sp, tp], timeout=2400, env={"MSAN_OPTIONS": "halt_on_error=1"})
+    ck.cov["msan_training_calls"] = len([1 for l in (open(tp).read().splitlines() if os.path.exists(tp) else []) if '"e":"train"' in l])
+    if rc != 0 and "MemorySanitizer" in out:
+        fr = re.findall(r"#\d+ 0x[0-9a-f]+ in (\w+) [^\n]*?((?:cover|fastcover|zdict|divsufsort|zstd|huf|fse)\w*\.[ch]:\d+)", out)
+        rp = ck.replay_path("train-msan.script", "\n".join(L) + "\n")
+        ck.violation("use of uninitialised memory (MemorySanitizer) in %s: the dictionary depends on what the heap held" % " <- ".join(f[0] for f in fr[:5]), rp, ident="msan|%s" % (fr[0][1] if fr else "?"))
+    elif rc != 0:
+        ck.warn("MSan driver run failed rc=%d: %s" % (rc, (out.strip().splitlines() or [""])[-1][:160]))
     # S: optimisers under seeded schedules
     exes = core.build_exe("traindrv_sched", ["traindrv.c", "vsched.c"], "sanq", extra_ldflags=pc.WRAP)
     nseeds = 3 if tier == "quick" else 12
